@@ -223,7 +223,7 @@ class P:
                 it = self.impl_()
                 if not skip:
                     res.append(it)
-            elif t in ('fn', 'const', 'type', 'static', 'trait', 'macro_rules!'):
+            elif t in ('fn', 'const', 'type', 'static', 'trait', 'macro_rules!', 'unsafe'):
                 # not needed: skip to the end of the item
                 while not (self.at(';') or self.at('{')):
                     self.eat()
@@ -402,6 +402,12 @@ class P:
                 body = self.block()
                 if not skip:
                     stmts.append(('for', pat, it, body))
+                continue
+            if self.at('loop'):
+                self.eat('loop')
+                body = self.block()
+                if not skip:
+                    stmts.append(('loop', body))
                 continue
             if self.at('break') or self.at('continue'):
                 kw = self.eat()
@@ -702,6 +708,8 @@ LEAN_TY = {'usize': 'Nat', 'bool': 'Bool', 'FixedBitSet': 'Rs.BitSet', 'Option<W
            'Context': 'Nat',
            'Vec<S>': 'Rs.Kids', 'Vec<Fut>': 'Rs.Kids', 'Indexer': 'Idx.Indexer',
            'FutureVec<Fut>': 'Rs.Kids', 'OutputVec<Output>': 'Rs.OutVec', 'Poll<Vec<Output>>': 'Rs.Poll (List Nat)',
+           'OutputVec<T>': 'Rs.OutVec', 'Poll<Result<Vec<T>,E>>': 'Rs.Poll (Rs.Result (List Nat))',
+           'Vec<MaybeUninit<Item>>': 'Rs.OutVec', 'Poll<Option<Vec<Item>>>': 'Rs.Poll (Option (List Nat))',
            'Poll<Option<Item>>': 'Rs.Poll (Option Nat)', 'Poll<Output>': 'Rs.Poll Nat'}
 
 def lean_ty(ty, structs):
@@ -773,6 +781,15 @@ class Module:
             return self.resolve(e[1][0][1], cx)             # unsafe { expr }
         if k == 'mcall' and e[2] in ('as_mut', 'get_unchecked_mut', 'as_ref', 'project', 'deref_mut') and not e[3]:
             return self.resolve(e[1], cx)
+        if k == 'mcall' and e[2] == 'iter' and not e[3] and e[1][0] in ('field', 'path'):
+            r_ = self.resolve(e[1], cx)
+            try:
+                if (self.ty(r_, cx) or '').startswith('Rs.PVec '):
+                    return r_
+            except Unsupported:
+                pass
+        if k == 'call' and e[1][-1] in ('iter_pin_mut_vec', 'iter_pin_mut') and len(e[2]) == 1:
+            return self.resolve(e[2][0], cx)
         if k == 'mcall' and e[2] == 'map_unchecked_mut' and len(e[3]) == 1 and e[3][0][0] == 'closure':
             return self.resolve(e[1], cx)                 # Pin::map_unchecked_mut(|t| t.deref_mut()): the same child
         if k == 'index' and e[2] == ('range', None, None):
@@ -788,6 +805,30 @@ class Module:
         if k == 'mcall':
             return ('mcall', self.resolve(e[1], cx), e[2], e[3])
         return e
+
+    def is_uninit_vec(self, e):
+        """`(0..n).map(|_| MaybeUninit::uninit()).collect()`: returns the expression `n`"""
+        if e[0] == 'mcall' and e[2] == 'collect' and e[1][0] == 'mcall' and e[1][2] == 'map' and len(e[1][3]) == 1 \
+                and e[1][3][0][0] == 'closure' and e[1][3][0][2] == ('call', ['MaybeUninit', 'uninit'], []):
+            r = e[1][1]
+            while r[0] == 'paren':
+                r = r[1]
+            if r[0] == 'range' and r[1] == ('num', 0) and r[2] is not None:
+                return r[2]
+        return None
+
+    def mutates(self, e, cx):
+        """does evaluating `e` change a variable? (trial translation, state restored)"""
+        import copy
+        saved = copy.deepcopy((cx.tmp, cx.mutations, cx.types, cx.alias, cx.placealias, cx.muts, cx.uses_env))
+        try:
+            m0 = cx.mutations
+            self.E(e, cx)
+            res = cx.mutations != m0
+        except Unsupported:
+            res = True
+        cx.tmp, cx.mutations, cx.types, cx.alias, cx.placealias, cx.muts, cx.uses_env = saved
+        return res
 
     def is_place(self, e, cx):
         try:
@@ -858,6 +899,10 @@ class Module:
             if rt == 'Rs.Kids' and e[2] == 'len': return 'Nat'
             if rt == 'Rs.OutVec' and e[2] == 'take': return 'List Nat'
             if (rt or '').startswith('Rs.PVec ') and e[2] in ('ready_indexes', 'pending_indexes', 'consumed_indexes'): return 'List Nat'
+            if (rt or '').startswith('Rs.PVec ') and e[2] == 'all': return 'Bool'
+            if (rt or '').startswith('Rs.PVec ') and e[2] == 'len': return 'Nat'
+            if (rt or '').startswith('Rs.PVec ') and e[2] == 'iter': return rt
+            if rt == 'Rs.Kids' and e[2] == 'nth': return 'Option Member'
             if rt == 'Rs.Kids' and e[2] == 'is_empty': return 'Bool'
             if rt == 'Idx.Indexer' and e[2] == 'iter': return 'Idx.IndexIter'
             if rt == 'Nat' and e[2] == 'waker': return 'Nat'
@@ -875,6 +920,12 @@ class Module:
             return ('Option ' + t) if t else None
         if k == 'call' and e[1] == ['Key']:
             return 'Nat'
+        if self.is_uninit_vec(e):
+            return 'Rs.OutVec'
+        if k == 'call' and e[1] == ['MaybeUninit', 'new']:
+            return self.ty(e[2][0], cx)
+        if k == 'call' and e[1][-1] == 'vec_assume_init':
+            return 'List Nat'
         if k == 'call' and e[1] == ['range_upto']:
             return 'List Nat'
         if k == 'call' and e[1][-1] in ('get_pin_mut_from_vec', 'get_pin_mut') and len(e[2]) == 2 and self.ty(e[2][0], cx) == 'Rs.Kids':
@@ -1017,11 +1068,25 @@ class Module:
                 v = cx.fresh()
                 cx.mutations += 1
                 return pv + po + [f"let {v} := {to}"] + self.assign_place(args[0], tv, cx), v
-            if segs == ['Key']:
+            if segs == ['Key'] or segs == ['MaybeUninit', 'new']:
                 return self.E(args[0], cx)
+            if segs[-1] == 'vec_assume_init':
+                p, t = self.E(args[0], cx)
+                v = cx.fresh()
+                return p + [f"let {v} ← Rs.OutVec.assumeInit {atom(t)}"], v
+            if segs[-2:] == ['mem', 'swap'] or segs == ['swap']:
+                # swap two places / locals
+                pa, ta = self.E(args[0], cx)
+                pb, tb = self.E(args[1], cx)
+                v = cx.fresh()
+                cx.mutations += 1
+                return pa + pb + [f"let {v} := {ta}"] + self.assign_place(args[0], tb, cx) + self.assign_place(args[1], v, cx), '()'
             if segs == ['Poll', 'Ready']:
                 p, t = self.E(args[0], cx)
                 return p, f"(Rs.Poll.ready {atom(t)})"
+            if segs in (['Ok'], ['Err']):
+                p, t = self.E(args[0], cx)
+                return p, f"(Rs.Result.{segs[0].lower()} {atom(t)})"
             if segs[-1] in ('get_pin_mut_from_vec', 'get_pin_mut') and len(args) == 2 and self.ty(args[0], cx) == 'Rs.Kids':
                 pk, tk = self.E(args[0], cx)
                 pi, ti = self.E(args[1], cx)
@@ -1088,6 +1153,9 @@ class Module:
         if k == 'mcall' and e[2] == 'readiness' and not e[3] and self.ty(e[1], cx) == 'WakerVec':
             p, t = self.E(e[1], cx)
             return p, f"{t}.readiness"
+        if self.is_uninit_vec(e):
+            p, t = self.E(self.is_uninit_vec(e), cx)
+            return p, f"(Rs.OutVec.uninit {atom(t)})"
         if k == 'mcall':
             return self.mcall_value(e, cx)
         if k == 'matches':
@@ -1190,6 +1258,13 @@ class Module:
             return pr + pa, f"(WakerVec.get {atom(tr)} {atom(ta)})"
         if rt == 'Member' and name in ('poll', 'poll_next'):
             return self.child_poll(e, cx)
+        if (rt or '').startswith('Rs.PVec ') and name == 'all' and len(args) == 1 and args[0][0] == 'closure':
+            x, body = args[0][1], args[0][2]
+            if body[0] == 'mcall' and body[1] == ('path', [x]) and not body[3]:
+                pr, tr = self.E(recv, cx)
+                v = cx.fresh()
+                return pr + [f"let {v} ← Rs.PVec.allOf {atom(tr)} (fun s => PS.PollState.{body[2]} s)"], v
+            raise Unsupported("closure of all()")
         if (rt or '').startswith('Rs.PVec ') and name in ('ready_indexes', 'pending_indexes', 'consumed_indexes'):
             pr, tr = self.E(recv, cx)
             v = {'ready_indexes': 'ready', 'pending_indexes': 'pending', 'consumed_indexes': 'none_'}[name]
@@ -1197,6 +1272,13 @@ class Module:
         if rt == 'Rs.OutVec' and name == 'take':
             cx.mutations += 1
             return self.mcall_stmt(e, cx, True)
+        if (rt or '').startswith('Rs.PVec ') and name == 'len':
+            pr, tr = self.E(recv, cx)
+            return pr, f"{tr}.len"
+        if rt == 'Rs.Kids' and name == 'nth':
+            pr, tr = self.E(recv, cx)
+            pa, ta = self.E(args[0], cx)
+            return pr + pa, f"(Rs.Kids.get {atom(tr)} {atom(ta)})"
         if rt == 'Rs.Kids' and name == 'len':
             pr, tr = self.E(recv, cx)
             return pr, f"{tr}.len"
@@ -1273,6 +1355,8 @@ class Module:
         cx.uses_env = True
         cx.mutations += 1
         fn = 'Rs.pollFut' if name == 'poll' else 'Rs.pollStream'
+        if name == 'poll' and cx.struct in ('TryJoin', 'RaceOk'):
+            fn = 'Rs.pollResFut'          # the children's output is a `Result`
         wk = tw if self.ty(args[0], cx) == 'Wk' else f"(Wk.par {atom(tw)})"      # the caller's own context is handed on
         nr, nres = cx.fresh(), cx.fresh()
         if len(wf) == 1:
@@ -1314,6 +1398,8 @@ class Module:
             fn = {'Rs.BArr': 'Rs.BArr.set', 'Rs.BitSet': 'Rs.BitSet.set'}.get(bt)
             if fn is None and bt and bt.startswith('Rs.PVec '):
                 fn = 'Rs.PVec.set'
+            if fn is None and bt == 'Rs.OutVec':
+                fn = 'Rs.OutVec.write'
             if fn is None:
                 raise Unsupported("index assignment")
             return pi + pb + [f"let {v} ← {fn} {atom(tb)} {atom(ti)} {atom(val)}"] + self.assign_place(place[1], v, cx)
@@ -1381,6 +1467,10 @@ class Module:
             pr, tr = self.E(recv, cx)
             nv, rv = cx.fresh(), cx.fresh()
             return pr + [f"let ({nv}, {rv}) ← {self.fname(rt, name)} {atom(tr)}"] + self.assign_place(recv, nv, cx), rv
+        if (rt or '').startswith('Rs.PVec ') and name in ('set_all_pending', 'set_all_none'):
+            pr, tr = self.E(recv, cx)
+            v = 'pending' if name == 'set_all_pending' else 'none_'
+            return pr + self.assign_place(recv, f"(Rs.PVec.replicate {tr}.len PS.PollState.{v})", cx), None
         if rt == 'Rs.OutVec' and name == 'write':
             pi, ti = self.E(args[0], cx)
             pv, tv = self.E(args[1], cx)
@@ -1526,6 +1616,8 @@ class Module:
             return [pad + f"pure ({cx.loop}, {'true' if k == 'break' else 'false'})"]
         if k == 'for':
             return self.for_stmt(s, rest, cx, ind)
+        if k == 'loop':
+            return self.loop_stmt(s, rest, cx, ind)
         if k == 'let':
             name, e = s[1], s[4]
             r = self.resolve(e, cx)
@@ -1578,6 +1670,13 @@ class Module:
             inner = ('if', b_, e[2], e[3])
             outer = ('if', a_, [('expr' if (rest or not is_last) else 'tail', inner)], e[3])
             return self.S([(k, outer)] + rest, cx, ind)
+        if e[0] == 'if' and e[1][0] == 'bin' and e[1][1] == '||' and self.mutates(e[1][3], cx):
+            # `if A || B {X} else {Y}`  ==  `if A {X} else { if B {X} else {Y} }`   (B has effects)
+            a_, b_ = e[1][2], e[1][3]
+            kind = 'expr' if (rest or not is_last) else 'tail'
+            inner = ('if', b_, e[2], e[3])
+            outer = ('if', a_, e[2], [(kind, inner)])
+            return self.S([(k, outer)] + rest, cx, ind)
         if e[0] == 'if':
             pc, tc = self.E(e[1], cx)
             a = list(e[2])
@@ -1628,6 +1727,36 @@ class Module:
         _, pat, it, body = s
         if cx.loop is not None:
             raise Unsupported("nested loops")
+        src_ = self.resolve(it, cx)
+        if src_[0] == 'range' and src_[1] == ('num', 0) and src_[2] is not None:
+            it = ('call', ['range_upto'], [src_[2]])          # `for i in 0..n`
+            src_ = it
+        if pat[0] == 'ptuple' and len(pat[1]) == 2 and all(q[0] == 'pbind' for q in pat[1]) and src_[0] == 'mcall' \
+                and src_[2] == 'zip' and len(src_[3]) == 1:
+            # `for (state, output) in <states>.iter_mut().zip(<outputs>.iter_mut())`: position by position
+            a_, b_ = src_[1], self.resolve(src_[3][0], cx)
+            strip = lambda q: self.resolve(q[1], cx) if (q[0] == 'mcall' and q[2] in ('iter_mut', 'iter') and not q[3]) else q
+            a_, b_ = strip(a_), strip(b_)
+            if (self.ty(a_, cx) or '').startswith('Rs.PVec ') and self.ty(b_, cx) == 'Rs.OutVec':
+                sv, ov = pat[1][0][1], pat[1][1][1]
+                idx = f"idx_{cx.fresh()}"
+                def rw(x):
+                    if isinstance(x, tuple):
+                        if x == ('path', [sv]):
+                            return ('index', a_, ('path', [idx]))
+                        if x[0] == 'mcall' and x[1] == ('path', [ov]) and x[2] == 'assume_init_drop':
+                            return ('mcall', b_, 'drop', [('path', [idx])])
+                        return tuple(rw(y) for y in x)
+                    if isinstance(x, list):
+                        return [rw(y) for y in x]
+                    return x
+                s2 = ('for', ('pbind', idx), ('call', ['range_upto'], [('mcall', a_, 'len', [])]), rw(list(body)))
+                return self.for_stmt(s2, rest, cx, ind)
+            raise Unsupported("zip of iterators")
+        if pat[0] == 'pbind' and src_[0] == 'mcall' and src_[2] == 'iter_mut' and (self.ty(src_[1], cx) or '').startswith('Rs.PVec '):
+            fe = ('mcall', src_, 'for_each', [('closure', pat[1], ('block', list(body)))])
+            lines, _ = self.mcall_stmt(fe, cx, False)
+            return ['  ' * ind + l for l in lines] + self.S(rest, cx, ind)
         enum_child = None
         if pat[0] == 'ptuple' and len(pat[1]) == 2 and all(q[0] == 'pbind' for q in pat[1]):
             # `for (i, fut) in <children>.iter().enumerate()`
@@ -1700,6 +1829,34 @@ class Module:
         out.append(pad + "| none =>")
         return out + self.S(rest, cx, ind + 2)
 
+    def loop_stmt(self, s, rest, cx, ind):
+        """`loop { body }`: iterated with fuel (the sum of the struct's counters + 1 bounds the iterations of the loops of
+        this crate; running out of fuel is a panic of the translation, i.e. a proof obligation)"""
+        pad = '  ' * ind
+        if cx.loop is not None:
+            raise Unsupported("nested loops")
+        nats = [f for f, t in self.structs.get(cx.struct, []) if t == 'Nat']
+        fuel = " + ".join(f"self.{f}" for f in nats) + " + 1" if nats else "1"
+        carry = ['self'] + (['env__'] if cx.has_env else []) + [m for m in cx.muts if m in cx.types]
+        tup = "(" + ", ".join(carry) + ")" if len(carry) > 1 else carry[0]
+        saved = (dict(cx.types), dict(cx.alias), dict(cx.placealias), list(cx.muts), cx.after_block, cx.ret)
+        cx.loop, cx.loop_ret = tup, True
+        cx.after_block = []
+        body_lines = self.S(detail(list(s[1])), cx, ind + 2)
+        cx.loop, cx.loop_ret = None, False
+        cx.types, cx.alias, cx.placealias, cx.muts, cx.after_block, cx.ret = saved
+        out = [pad + f"let ({tup}, r__) ← Rs.loopFuel ({fuel}) {tup} (fun {tup} => do"]
+        out += body_lines
+        out.append(pad + "  )")
+        out.append(pad + "match r__ with")
+        out.append(pad + "| some v__ =>")
+        out.append(pad + "    " + self.ret('v__', cx))
+        out.append(pad + "| none =>")
+        if not [x for x in rest if x != ('scope_end',)] and cx.ret != 'Unit':
+            # a `loop` without `break` never falls through
+            return out + [pad + "    none"]
+        return out + self.S(rest, cx, ind + 2)
+
     def tail_value(self, e, cx):
         if e[0] == 'mcall':
             return self.mcall_stmt(e, cx, True)
@@ -1715,7 +1872,7 @@ class Module:
         out.append(pad + f"match {ts} with")
         saved = (dict(cx.types), dict(cx.alias))
         general = (st or '').startswith('Rs.Poll') or any(a[0][0] in ('pnest', 'ptuple') for a in arms) or \
-            any(a[0][0] == 'pctor' and a[0][1][0] == 'Poll' for a in arms)
+            any(a[0][0] == 'pctor' and a[0][1][0] in ('Poll', 'Ok', 'Err') for a in arms)
         if general and not any(len(a) == 3 for a in arms):
             saved2 = (dict(cx.placealias), list(cx.muts), cx.after_block)
             for pat, body in arms:
@@ -1780,7 +1937,8 @@ class Module:
             segs = pat[1]
             subs = pat[2] if pat[0] == 'pnest' else ([] if pat[2] is None else [('pwild',) if pat[2] == '_' else ('pbind', pat[2])])
             head = {('Poll', 'Ready'): 'Rs.Poll.ready', ('Poll', 'Pending'): 'Rs.Poll.pending', ('Some',): 'some',
-                    ('None',): 'none', ('Key',): ''}.get(tuple(segs[-2:]) if len(segs) > 1 else tuple(segs))
+                    ('None',): 'none', ('Key',): '', ('Ok',): 'Rs.Result.ok', ('Err',): 'Rs.Result.err'
+                    }.get(tuple(segs[-2:]) if len(segs) > 1 else tuple(segs))
             if head is None:
                 raise Unsupported(f"pattern {'::'.join(segs)}")
             args = " ".join(atom(self.pat_any(q, cx)) for q in subs)
@@ -2035,15 +2193,21 @@ UNITS = [
     ('MergeV', [('src/stream/merge/vec.rs', ['Merge'])]),
     ('RaceV',  [('src/future/race/vec.rs', ['Race'])]),
     ('JoinV',  [('src/future/join/vec.rs', ['Join'])]),
+    ('TryJoinV', [('src/future/try_join/vec.rs', ['TryJoin'])]),
+    ('ZipV',   [('src/stream/zip/vec.rs', ['Zip'])]),
+    ('ChainV', [('src/stream/chain/vec.rs', ['Chain'])]),
 ]
 SKIP_FNS = {('InlineWakerArray', 'new'), ('InlineWakerVec', 'new')}
 
 GROUPS = {'Std': ['StdArr', 'StdVec'], 'Dir': ['DirArr', 'DirVec'], 'Idx': ['Idx'], 'PS': ['PS'], 'Grp': ['GrpF', 'GrpS'],
-          'Fam': ['MergeV', 'RaceV'], 'Fam2': ['JoinV']}
+          'Fam': ['MergeV', 'RaceV'], 'Fam2': ['JoinV'], 'Fam3': ['TryJoinV'], 'Fam4': ['ZipV'], 'Fam5': ['ChainV']}
 GROUP_IMPORTS = {'Std': ['Fc.Kernel'], 'Grp': ['FcGen.KSrcStd', 'FcGen.KSrcPS', 'Fc.RustEnv'],
                  'Fam': ['FcGen.KSrcStd', 'FcGen.KSrcPS', 'FcGen.KSrcIdx', 'Fc.RustEnv'],
-                 'Fam2': ['FcGen.KSrcStd', 'FcGen.KSrcPS', 'Fc.RustEnv']}
-GROUP_DEPS = {'Grp': ['Std', 'PS'], 'Fam': ['Std', 'PS', 'Idx'], 'GrpPoll': ['Grp'], 'RaceV': ['Fam'], 'MergeV': ['Fam'], 'Fam2': ['Std', 'PS']}
+                 'Fam2': ['FcGen.KSrcStd', 'FcGen.KSrcPS', 'Fc.RustEnv'],
+                 'Fam3': ['FcGen.KSrcStd', 'FcGen.KSrcPS', 'Fc.RustEnv'],
+                 'Fam4': ['FcGen.KSrcStd', 'FcGen.KSrcPS', 'Fc.RustEnv'],
+                 'Fam5': ['FcGen.KSrcStd', 'FcGen.KSrcPS', 'Fc.RustEnv']}
+GROUP_DEPS = {'Grp': ['Std', 'PS'], 'Fam': ['Std', 'PS', 'Idx'], 'GrpPoll': ['Grp'], 'RaceV': ['Fam'], 'MergeV': ['Fam'], 'Fam2': ['Std', 'PS'], 'Fam3': ['Std', 'PS'], 'Fam4': ['Std', 'PS'], 'Fam5': ['Std', 'PS']}
 # groups of tie theorems that have no generated file of their own (they talk about functions of another group's file)
 VIRTUAL_GROUPS = {'GrpPoll': ['GrpF', 'GrpS'], 'RaceV': ['RaceV'], 'MergeV': ['MergeV']}
 # src/utils/wakers/vec/waker_vec.rs (std) is Arc / closure glue around the readiness set: modelled by hand here —
@@ -2086,6 +2250,9 @@ REQUIRED = {
     'RaceV': ['RaceV.Race.poll'],
     'MergeV': ['MergeV.Merge.poll_next'],
     'Fam2': ['JoinV.Join.poll', 'JoinV.Join.drop', 'JoinV.Join.new'],
+    'Fam3': ['TryJoinV.TryJoin.poll', 'TryJoinV.TryJoin.drop', 'TryJoinV.TryJoin.new'],
+    'Fam4': ['ZipV.Zip.poll_next', 'ZipV.Zip.drop', 'ZipV.Zip.new'],
+    'Fam5': ['ChainV.Chain.poll_next'],
     'Grp': ['GrpF.FutureGroup.' + f for f in ('with_capacity', 'len', 'capacity', 'is_empty', 'remove', 'contains_key', 'reserve', 'insert')]
            + ['GrpS.StreamGroup.' + f for f in ('with_capacity', 'len', 'capacity', 'is_empty', 'remove', 'contains_key', 'reserve', 'insert')],
 }
@@ -2146,10 +2313,10 @@ def translate_unit(repo, ns, files, report, ext=None):
             mod.out.append(f"def {sname}.extraFields : List String := {json.dumps(r['extra'] if r else [])}")
             mod.out.append("")
     for sname in list(mod.structs):
-        if sname in ('FutureGroup', 'StreamGroup', 'Merge', 'Race', 'Join') and sname not in getattr(mod, 'ext_names', ()):
+        if sname in ('FutureGroup', 'StreamGroup', 'Merge', 'Race', 'Join', 'TryJoin', 'Zip', 'Chain') and sname not in getattr(mod, 'ext_names', ()):
             tags = {'Rs.Slab': 'roleSlab', 'WakerVec': 'roleWakers', 'Rs.PVec PS.PollState': 'roleStates',
                     'Rs.BTree': 'roleKeys', 'Nat': 'roleCapacity', 'List Nat': 'roleQueue'}
-            if sname in ('Merge', 'Race', 'Join'):
+            if sname in ('Merge', 'Race', 'Join', 'TryJoin', 'Zip', 'Chain'):
                 tags = {'Rs.Kids': 'roleKids', 'Idx.Indexer': 'roleIndexer', 'WakerVec': 'roleWakers',
                         'Rs.PVec PS.PollState': 'roleStates', 'Nat': 'roleCount', 'Bool': 'roleDone', 'Rs.OutVec': 'roleItems'}
             fl = mod.structs[sname]
@@ -2159,6 +2326,16 @@ def translate_unit(repo, ns, files, report, ext=None):
                 if t in tags and sum(1 for _, t2 in fl if t2 == t) == 1:
                     mod.out.append(f"abbrev {sname}.{tags[t]} (g : {sname}) : {t} := g.{f}")
                     roles[tags[t]] = f
+            nat_fields = [f for f, t in fl if t == 'Nat']
+            if sname == 'Chain' and len(nat_fields) == 2:
+                # the counter that `poll_next` advances is the index of the current input, the other one the length
+                txt = json.dumps(parsed_all)
+                adv = [f for f in nat_fields if re.search(r'"opassign", "\+", (\["deref", )?\["field", \["path", \["\w+"\]\], "%s"\]' % f, txt)]
+                if len(adv) == 1:
+                    other = [f for f in nat_fields if f != adv[0]][0]
+                    mod.out.append(f"abbrev {sname}.roleIndex (g : {sname}) : Nat := g.{adv[0]}")
+                    mod.out.append(f"abbrev {sname}.roleLen (g : {sname}) : Nat := g.{other}")
+                    roles['roleIndex'], roles['roleLen'] = adv[0], other
             report['roles'][f"{ns}.{sname}"] = roles
             mod.out.append("")
     mod.out.append(f"end {ns}")
@@ -2208,7 +2385,7 @@ def translate(repo):
                "", "set_option linter.unusedVariables false", "",
                "namespace Fc.Src", "open Fc", ""]
         ext = None
-        if g in ('Grp', 'Fam', 'Fam2'):
+        if g in ('Grp', 'Fam', 'Fam2', 'Fam3', 'Fam4', 'Fam5'):
             mods = report.get('_mods', {})
             ext = {'structs': {}, 'enums': {}, 'fns': {}}
             sv, ps = mods.get('StdVec'), mods.get('PS')
